@@ -30,8 +30,16 @@ class Check(PropCheck):
             t = gen.rand_tree(rng, n, 'exact', p_multi=rng.choice([0, 0.3, 0.6]), p_unary=rng.choice([0, 0.2]),
                               p_missing=rng.choice([0, 0, 0.15, 0.5]), root_len=rng.random() < 0.2)
             ops = [gen.parse_op(gen.to_newick(t))] if rng.random() < 0.7 else ['new'] + gen.build_ops(t)
+            if rng.random() < 0.3:
+                for nd in t.nodes():
+                    if nd.length is not None and rng.random() < 0.3:
+                        nd.length = -nd.length
+                ops = [gen.parse_op(gen.to_newick(t))]
             ne = rng.randint(0, 4)
             ops += edit_prefix(rng, ne)
+            if rng.random() < 0.15:
+                # a length written through the public field of the child only
+                ops += ['pick nonroot %d' % rng.randint(0, 10 ** 6), 'set_pedge $0 ' + vf.enc_len(gen.exact_len(rng))]
             trees.append((ops, len(t.nodes()) + ne + 1))
         self.stats['trees'] = len(trees)
         for k, (ops, bound) in enumerate(trees):
